@@ -62,6 +62,17 @@ add("C18", "hashing", "fault_enumeration", "fault injection by construction (mis
     "Every position of every faulty kind in every list of size <= 6 for GOMAXPROCS in {1,2,4,16}, repeated, also under -race; generated lists of size 0..4*NumCPU and 10^4 with duplicates: Hash returns (digest, nil) or (\"\", err), errors exactly when an entry cannot be opened, no crash, stall, race or leaked goroutine.",
     "A crash or 20 s stall of the shard process is attributed to the list published in the shared-memory progress area and confirmed by a solo replay. Vanishing files may yield either outcome.", "DESIGN.md §4 C18")
 
+SB_NOTE = "The built binary runs as uid 65534 inside a throw-away sandbox tree (needs root to chown/setuid; otherwise it runs as the invoking user). "
+add("C17", "cli", "exploration", "bounded-exhaustive enumeration of directory chains x start x stop against a reference walk (differential), stall detection by watchdog",
+    "Every chain of depth <= 3 (quick) / 4 (thorough) with 8 per-level configurations and two child-name orders x every start x every stop incl. an unrelated directory: file.Find terminates and returns the nearest regular spokfile not above stop, else an error.",
+    "Find is called in-process in watchdogged shards (10 s stall limit, confirmed by a solo replay). When start is not at/below stop either a not-found error or the nearest spokfile on start's own chain is accepted. Symlinks and path spelling variants are not generated.", "DESIGN.md §4 C17")
+add("C13", "cli", "exploration", "property-based testing of the binary with a textual-substitution oracle and environment collisions by construction",
+    "Generated variable sets (string / exec / join) with names colliding with ambient environment and .env, printed through {{.NAME}} and $NAME under --json, from the project root and nested directories; also --vars and failing exec.",
+    SB_NOTE + "Values avoid both quote characters so that the probing commands stay valid shell; references to later-defined variables are out of scope.", "DESIGN.md §4 C13")
+add("C12", "cli", "exploration", "property-based testing of the binary with a whole-sandbox before/after snapshot (frame condition + protected set + completeness)",
+    "Random project trees x spokfiles declaring literal, named and glob outputs incl. ones that evaluate to '', '.', '..'; `spok --clean` must remove exactly the designated paths and .spok, never the spokfile, its directory or anything above; with a clean task only that task runs.",
+    SB_NOTE + "When an output designates the project or above, aborting or skipping it are both accepted; outputs beside (not above) the project are not generated.", "DESIGN.md §4 C12")
+
 NOT_YET = {}
 
 def main():
